@@ -28,7 +28,7 @@ CHECKS["C03"] = {
     "level": "model_checking",
     "design_ref": "DESIGN.md section 4 C03, Appendix B/G",
     "technique": "TLA+ encoding semantics (CapnpSem.Value) + TLC-enumerated messages from a slot-driven boundary-alphabet generator (EncGen); spec->code replay: the real accessors must return the tree TLC computes",
-    "text": "Every reachable state of EncGen (a message built by assigning, to each reachable pointer slot in turn, each word of an alphabet derived from the case analysis of the pointer-resolution spec: all pointer kinds x boundary offsets x boundary sizes, far/double-far pads, composite tags) is read through the public accessors in 4 presentations and compared node by node with CapnpSem.Value; where the spec value is Err the implementation is free. Includes mixed-width data reads, beyond-section defaults, reads wider than / straddling the end of a (sub-word) data section, and both directions of the list upgrade rule.",
+    "text": "Every reachable state of EncGen (a message built by assigning, to each reachable pointer slot in turn, each word of an alphabet derived from the case analysis of the pointer-resolution spec: all pointer kinds x boundary offsets x boundary sizes, far/double-far pads, composite tags) is read through the public accessors in 4 presentations and compared node by node with CapnpSem.Value; where the spec value is Err the implementation is free. Includes mixed-width data reads, beyond-section defaults, reads wider than / straddling the end of a (sub-word) data section, and both directions of the list upgrade rule. The quick tier includes the 3-segment family with 3 assigned slots (double-far pointers to objects at the start of a segment: defect D29).",
     "note": "Bounded: <= 3 segments of <= 5 words, <= 3-4 assigned pointer slots, lists <= 64 elements. Trusted: TLC, CapnpSem as a reading of encoding.html (generator and decoder are cross-checked by FillPreserves), the walker's JSON rendering.",
 }
 CHECKS["C01"] = {
@@ -171,7 +171,7 @@ CHECKS["C19"] = {
     "level": "model_checking",
     "design_ref": "DESIGN.md section 0 (C15/C19/C20), section 4 C19",
     "technique": "same TLA+ layout specification and TLC-generated schemas as C15; pogs.Insert / pogs.Extract are driven with Go mirror types built from the schema nodes (reflect.StructOf) and every recorded byte image / extracted value is judged by TLC against SetField/GetField; round trips and agreement with the generated getters reported through the same trace",
-    "text": "For every struct type of the generated packages: Insert of each primitive field with boundary values (all other active fields at their defaults, garbage in the inactive members of the selected unions) must produce exactly SetField plus the discriminants on the path; Extract from all-one and patterned raw bytes must return GetField, the right Which values, and leave inactive members zero; one fully populated value per top-level union member is inserted, extracted and compared (DeepEqual), and the generated getters must see the inserted values; extraction from a null struct shows every field's default; a null struct / list slot extracts as the field's default (pointer, and struct-by-value mirror types).",
+    "text": "For every struct type of the generated packages: Insert of each primitive field with boundary values (all other active fields at their defaults, garbage in the inactive members of the selected unions) must produce exactly SetField plus the discriminants on the path; Extract from all-one and patterned raw bytes must return GetField, the right Which values, and leave inactive members zero; one fully populated value per top-level union member is inserted, extracted and compared (DeepEqual), and the generated getters must see the inserted values; extraction from a null struct shows every field's default; a null struct / list slot extracts as the field's default (pointer, and struct-by-value mirror types). Insert over a struct that already holds a populated value (same union member with zero values, another member with zero and with populated values) must be indistinguishable through Extract from the same Insert into a fresh struct.",
     "note": "Mirror type variants: default naming, fields embedded three levels deep, renamed with capnp tags, nested structs by value. Nested struct types deeper than 2 are left out of the mirror types.",
 }
 CHECKS["C20"] = {
